@@ -87,6 +87,13 @@ func main() {
 		R.onlySuite, R.onlyInput = rep.Suite, rep.Input
 	}
 	base := newRng(R.seed)
+	// a suite that sees the implementation not returning (a runaway loop that keeps allocating) reports it and ends the run at
+	// once through R.abort: the results gathered so far are written and the process exits before memory runs out
+	R.abort = func() {
+		R.note("run ended early: the implementation did not return from a call (reported as an oracle failure); later suites were not run")
+		R.finish(*out)
+		os.Exit(0)
+	}
 	for _, s := range suites {
 		s(R, base.fork())
 	}
